@@ -15,7 +15,7 @@ Norm(e) ==
 
 PathsOf(in) == << <<114>> >> \o [k \in DOMAIN in.names |-> <<114, 47>> \o in.names[k]]
 
-InDomain(in) ==
+InDomain(in, obs) ==
   /\ in.syn = EffectiveType(in.words)
   /\ Supported(Norm(in.ast), in.syn)
   /\ in.pattern = Concrete(Norm(in.ast), in.syn)
